@@ -9,6 +9,10 @@ pub mod h_classes;
 pub mod h_datetime_fromstr;
 #[path = "h_datetime_kernels.rs"]
 pub mod h_datetime_kernels;
+#[path = "h_encode.rs"]
+pub mod h_encode;
+#[path = "h_float_writer.rs"]
+pub mod h_float_writer;
 #[path = "h_float.rs"]
 pub mod h_float;
 #[path = "h_numbers.rs"]
@@ -23,3 +27,5 @@ pub mod h_position;
 pub mod h_quoting;
 #[path = "h_recursion.rs"]
 pub mod h_recursion;
+#[path = "h_string_tokens.rs"]
+pub mod h_string_tokens;
